@@ -296,7 +296,7 @@ def check_group_by(gmask: int, mmask: int, n: int, a0: int, d0: int, a1: int, d1
     pre: 2 <= n <= B.GV
     pre: 0 <= a0 < B.ASH and 0 <= a1 < B.ASH and 0 <= a2 < B.ASH
     pre: 0 <= d0 < B.DSH and 0 <= d1 < B.DSH and 0 <= d2 < B.DSH
-    pre: h.in_shard(gmask)
+    pre: h.in_shard(gmask + 2 ** B.NKEYS * (1 if bare else 0))
     post: _
     """
     gmask = h.concrete(gmask, 0, 2 ** B.NKEYS - 1)
@@ -363,7 +363,7 @@ CONDITIONS = [
          smoke=["check_filter(1, 0, 4, True, [1, -2], 1, 0, 0)"]),
     dict(fn="check_select_context", budget=(60, 300),
          smoke=["check_select_context(0, 0, True, 1, 5)", "check_select_context(1, 1, False, 2, 5)"]),
-    dict(fn="check_group_by", shards=(16, 32), budget=(110, 1500),
+    dict(fn="check_group_by", shards=(32, 64), budget=(160, 1500),
          smoke=["check_group_by(2, 1, 2, 1, 0, 5, 0, 0, 0, False)", "check_group_by(1, 4, 2, 2, 0, 1, 0, 0, 0, False)",
                 "check_group_by(4, 1, 2, 2, 1, 2, 0, 0, 0, False)", "check_group_by(1, 4, 2, 1, 1, 5, 1, 0, 0, False)", "check_group_by(1, 0, 2, 1, 1, 5, 1, 0, 0, True)"]),
 ]
